@@ -253,7 +253,7 @@ fn forged_product(a: &Session, hk: Hk) -> Vec<KbItem> {
 
 fn fixed_kbs() -> Vec<KbItem> {
     let mk = |label: &str, token: Option<&str>| KbItem { label: label.into(), token: token.map(str::to_string), signer: "none".into(), alg_family_ok: false, typ: None, nonce: None, aud: None, sd_hash: None, holder_made_for: None };
-    vec![mk("absent", None), mk("empty", Some("")), mk("garbage", Some("x.y.z")), mk("one_part", Some("abc"))]
+    vec![mk("absent", None), mk("empty", Some("")), mk("garbage", Some("x.y.z")), mk("one_part", Some("abc")), mk("garbage_padded", Some("a=.b+.c/")), mk("garbage_bang", Some("!")), mk("garbage_space", Some(" ")), mk("garbage_nonascii", Some("\u{e9}.\u{e9}.\u{e9}"))]
 }
 
 /// the model: is `kb` valid for (J, L, aud, nonce)?
@@ -554,8 +554,33 @@ fn string_alphabet(rep: &Report) {
         } else {
             l.outcome("must_accept_accepted");
         }
+        // the same credential presented WITHOUT a KB-JWT must be rejected under this expectation
+        if let Some(mut parts) = codec::parse(&p, fmt) {
+            parts.kb = None;
+            for text in [parts.serialize(fmt), if fmt == Fmt::Json { parts.to_json_styled(1, false) } else { parts.to_compact() }] {
+                l.evals += 1;
+                let out = drive::verify(&text, keys::issuer_dec(Alg::HS256, 0), Some(a), Some(n), fmt);
+                if !out.is_err() {
+                    l.violation(mk(if out.is_panic() { "panic" } else { "ok_where_err_required" }, "c04_accepted_without_kb".into(), out.describe()));
+                } else {
+                    l.outcome("must_reject_rejected");
+                    l.nontrivial += 1;
+                }
+            }
+        }
         // and the same presentation under any *other* aud / nonce must be rejected
-        for (a2, n2) in [(format!("{a}x"), n.to_string()), (a.to_string(), format!("{n}x"))] {
+        let mut others = vec![(format!("{a}x"), n.to_string()), (a.to_string(), format!("{n}x"))];
+        if !a.is_empty() {
+            others.push((String::new(), n.to_string()));
+            others.push((a[..a.len() - a.chars().last().map(|c| c.len_utf8()).unwrap_or(0)].to_string(), n.to_string()));
+        }
+        if !n.is_empty() {
+            others.push((a.to_string(), String::new()));
+        }
+        if !a.is_empty() || !n.is_empty() {
+            others.push((String::new(), String::new()));
+        }
+        for (a2, n2) in others {
             l.evals += 1;
             let out = drive::verify(&p, keys::issuer_dec(Alg::HS256, 0), Some(&a2), Some(&n2), fmt);
             if !out.is_err() {
